@@ -77,8 +77,14 @@ impl<'a> GeneratorState<'a> {
                 match right {
                     ExprType::Immediate(r) => {
                         match op {
-                            Operation::Add(_) => return Ok(ExprType::Immediate(l + r)),
-                            Operation::Sub(_) => return Ok(ExprType::Immediate(l - r)),
+                            Operation::Add(_) => return match l.checked_add(*r) {
+                                Some(v) => Ok(ExprType::Immediate(v)),
+                                None => Err(self.compiler_state.syntax_error("Constant overflow", pos)),
+                            },
+                            Operation::Sub(_) => return match l.checked_sub(*r) {
+                                Some(v) => Ok(ExprType::Immediate(v)),
+                                None => Err(self.compiler_state.syntax_error("Constant overflow", pos)),
+                            },
                             Operation::And(_) => return Ok(ExprType::Immediate(l & r)),
                             Operation::Or(_) => return Ok(ExprType::Immediate(l | r)),
                             Operation::Xor(_) => return Ok(ExprType::Immediate(l ^ r)),
@@ -333,9 +339,15 @@ impl<'a> GeneratorState<'a> {
             ExprType::Immediate(l) => {
                 match right {
                     ExprType::Immediate(r) => {
+                        if !(0..32).contains(r) {
+                            return Err(self.compiler_state.syntax_error("Shift count out of range", pos));
+                        }
                         match op {
                             Operation::Brs(_) => return Ok(ExprType::Immediate(l >> r)),
-                            Operation::Bls(_) => return Ok(ExprType::Immediate(l << r)),
+                            Operation::Bls(_) => return match i32::try_from((*l as i64) << r) {
+                                Ok(v) => Ok(ExprType::Immediate(v)),
+                                Err(_) => Err(self.compiler_state.syntax_error("Constant overflow", pos)),
+                            },
                             _ => unreachable!(),
                         } 
                     },
@@ -729,7 +741,10 @@ impl<'a> GeneratorState<'a> {
     pub(crate) fn generate_neg(&mut self, expr: &Expr, pos: usize, high_byte: bool) -> Result<ExprType, Error>
     {
         match expr {
-            Expr::Integer(i) => Ok(ExprType::Immediate(-*i)),
+            Expr::Integer(i) => match i.checked_neg() {
+                Some(v) => Ok(ExprType::Immediate(v)),
+                None => Err(self.compiler_state.syntax_error("Constant overflow", pos)),
+            },
             _ => {
                 let left = ExprType::Immediate(0);
                 let right = self.generate_expr(expr, pos, high_byte, false)?;
